@@ -82,11 +82,11 @@ Definition entry_at (op : outpoint) (U : list (outpoint * uentry)) : uentry :=
   match tgP op U with Some e => e | None => empty_entry end.
 
 Definition EntInv (E : list (N * ientry)) (U : list (outpoint * uentry)) (lostr : list (N * N)) : Prop :=
-  forall op u, In (op, u) U -> op <> unbound_op ->
+  forall op u, tgP op U = Some u -> op <> unbound_op ->
     forall s off, In (s, off) (u_insc u) -> sat_at E (eranges lostr op u) s off.
 
 Definition KeyU (E : list (N * ientry)) (U : list (outpoint * uentry)) : Prop :=
-  forall op u s off, In (op, u) U -> In (s, off) (u_insc u) -> tgN s E <> None.
+  forall op u s off, tgP op U = Some u -> In (s, off) (u_insc u) -> tgN s E <> None.
 
 (* entries only grow, and an existing entry keeps its sat *)
 Definition Ext (E E' : list (N * ientry)) : Prop :=
@@ -127,16 +127,17 @@ Proof.
     rewrite tgN_set. destruct (N.eqb_spec s seq); eauto. subst. rewrite He0 in He. inv He. eexists. split; [reflexivity|]. reflexivity.
 Qed.
 
-Lemma In_push : forall op s off U op' u',
-  In (op', u') (push_insc op s off U) ->
-  In (op', u') U \/
+Lemma tg_push : forall op s off U op' u',
+  tgP op' (push_insc op s off U) = Some u' ->
+  (tgP op' U = Some u' /\ op' <> op) \/
   (op' = op /\ u_ranges u' = u_ranges (entry_at op U) /\
    forall p, In p (u_insc u') -> p = (s, off) \/ (In p (u_insc (entry_at op U)) /\ (tgP op U <> None))).
 Proof.
-  intros op s off U op' u' H. unfold push_insc in H. apply In_tset in H. destruct H as [H|H]; auto.
-  inv H. right. unfold entry_at. split; auto. split; auto. cbn [u_insc]. intros p Hp.
-  apply in_app_or in Hp. destruct Hp as [Hp|[Hp|[]]]; auto. right. split; auto.
-  destruct (tgP op U); [discriminate|]. cbn in Hp. contradiction.
+  intros op s off U op' u' H. unfold push_insc in H. rewrite tgP_set in H. destruct (pair_eqb op' op) eqn:Q.
+  - apply pair_eqb_eq in Q. subst op'. inv H. right. unfold entry_at. split; auto. split; auto. cbn [u_insc]. intros p Hp.
+    apply in_app_or in Hp. destruct Hp as [Hp|[Hp|[]]]; auto. right. split; auto.
+    destruct (tgP op U); [discriminate|]. cbn in Hp. contradiction.
+  - left. split; auto. intro. subst. rewrite pair_eqb_refl in Q. discriminate.
 Qed.
 
 (* one application of update_inscription_location *)
@@ -166,20 +167,19 @@ Proof.
       intros Hne e n He Hn. rewrite N1, tgN_set, N.eqb_refl in He. inv He.
       destruct A4 as [A4|A4]; [|contradiction]. inv A4. cbn [fst snd] in TS. apply TS; auto. }
   destruct Hnew as [Hn1 Hn2]. split.
-  - intros op' u' Hin Hne s' off' Hp. apply In_push in Hin. destruct Hin as [Hin|(-> & R & Hps)].
+  - intros op' u' Hin Hne s' off' Hp. apply tg_push in Hin. destruct Hin as [[Hin _]|(-> & R & Hps)].
     + eapply sat_at_ext; [exact HX | eapply HK; eauto | eapply HE; eauto].
     + assert (Q : eranges lostr op u' = eranges lostr op (entry_at op (s_utxo (b_st b)))) by (unfold eranges; rewrite R; reflexivity).
       rewrite Q. destruct (Hps _ Hp) as [Hq|[Hq Hq2]].
       * inv Hq. apply Hn2. exact Hne.
       * unfold entry_at in *. destruct (tgP op (s_utxo (b_st b))) as [e0|] eqn:T; [|congruence].
-        assert (Hin0 : In (op, e0) (s_utxo (b_st b))) by (eapply tget_In; [exact pair_eqb_eq|exact T]).
         eapply sat_at_ext; [exact HX | eapply HK; eauto | eapply HE; eauto].
-  - intros op' u' s' off' Hin Hp. apply In_push in Hin. destruct Hin as [Hin|(-> & R & Hps)].
+  - intros op' u' s' off' Hin Hp. apply tg_push in Hin. destruct Hin as [[Hin _]|(-> & R & Hps)].
     + apply Hkey. eapply HK; eauto.
     + destruct (Hps _ Hp) as [Hq|[Hq Hq2]].
       * inv Hq. exact Hn1.
       * unfold entry_at in *. destruct (tgP op (s_utxo (b_st b))) as [e0|] eqn:T; [|congruence].
-        apply Hkey. eapply (HK op e0); eauto. eapply tget_In; [exact pair_eqb_eq|exact T].
+        apply Hkey. eapply (HK op e0); eauto.
 Qed.
 
 (* ---- lists of flotsam *)
@@ -307,4 +307,87 @@ Proof.
     destruct (IH b1 b' HLf G2 D1 E1 K1) as (A & B & C & X); auto.
     { eapply FlInv_ext; [exact X1|]. intros g s Hg. apply HF. right. exact Hg. }
     split; [exact A|]. split; [exact B|]. split; [exact C|]. eapply Ext_trans; eauto.
+Qed.
+
+(* ---- helpers for one transaction *)
+
+Lemma calc_mono : forall r x o g n, calc_sat_in r o g = Ok n -> calc_sat_in (r ++ x) o g = Ok n.
+Proof.
+  intros r. induction r as [|[s e] t IH]; intros x o g n H; cbn [calc_sat_in app] in *; [discriminate|].
+  destruct (g <? o + (e - s)); auto.
+Qed.
+
+Lemma sat_at_mono : forall E r x s off, sat_at E r s off -> sat_at E (r ++ x) s off.
+Proof. intros E r x s off H e n He Hn. apply calc_mono. eapply H; eauto. Qed.
+
+Definition sizes_before (ents : list uentry) (i : nat) : N :=
+  fold_right (fun u a => ranges_size (u_ranges u) + a) 0 (firstn i ents).
+
+Lemma calc_concat : forall ents i u off n,
+  nth_error ents i = Some u -> calc_sat_in (u_ranges u) 0 off = Ok n ->
+  calc_sat_in (concat (map u_ranges ents)) 0 (sizes_before ents i + off) = Ok n.
+Proof.
+  intros ents. induction ents as [|u0 r IH]; intros i u off n Hn Hc; [destruct i; discriminate|].
+  cbn [map concat]. destruct i as [|i'].
+  - cbn in Hn. inv Hn. unfold sizes_before. cbn [firstn fold_right]. rewrite N.add_0_l. apply calc_mono. exact Hc.
+  - cbn [nth_error] in Hn. unfold sizes_before. cbn [firstn fold_right]. fold (sizes_before r i').
+    rewrite calc_app_ge by lia.
+    replace (ranges_size (u_ranges u0) + sizes_before r i' + off) with (sizes_before r i' + off + ranges_size (u_ranges u0)) by lia.
+    rewrite calc_shift. eapply IH; eauto.
+Qed.
+
+Lemma take_inputs_tg : forall ins U ents U',
+  take_inputs ins U = Ok (ents, U') ->
+  Forall2 (fun p u => tgP p U = Some u) ins ents /\
+  (forall op u, tgP op U' = Some u -> tgP op U = Some u) /\
+  (forall op, ~ In op ins -> tgP op U' = tgP op U).
+Proof.
+  intros ins. induction ins as [|p r IH]; intros U ents U' H; cbn [take_inputs] in H.
+  - inv H. repeat split; auto.
+  - destruct (tgP p U) as [u|] eqn:E; [|discriminate]. dbind H. destruct a as [us U2]. inv H.
+    destruct (IH _ _ _ E0) as (A & B & C).
+    assert (Hd : forall op u0, tgP op (tdel pair_eqb p U) = Some u0 -> tgP op U = Some u0 /\ op <> p).
+    { intros op u0 Hq. assert (op <> p).
+      { intro. subst. rewrite (tget_tdel_same pair_eqb) in Hq. discriminate. }
+      rewrite (tget_tdel_other pair_eqb pair_eqb_eq) in Hq by auto. auto. }
+    repeat split.
+    + constructor; auto. clear -A Hd. induction A; constructor; auto. apply Hd in H. tauto.
+    + intros op u0 Hq. apply B in Hq. apply Hd in Hq. tauto.
+    + intros op Hn. rewrite C by (intro; apply Hn; right; auto).
+      apply (tget_tdel_other pair_eqb pair_eqb_eq). intro. subst. apply Hn. left. reflexivity.
+Qed.
+
+Lemma put_outputs_tg : forall cfg txid outs vout rs U op u,
+  tgP op (put_outputs cfg txid vout outs rs U) = Some u ->
+  (fst op = txid /\ u_insc u = []) \/ tgP op U = Some u.
+Proof.
+  intros cfg txid outs. induction outs as [|o r IH]; intros vout rs U op u H; cbn [put_outputs] in H; auto.
+  apply IH in H. destruct H as [H|H]; auto. rewrite tgP_set in H. destruct (pair_eqb op (txid, vout)) eqn:Q; auto.
+  apply pair_eqb_eq in Q. subst op. inv H. left. split; auto. destruct (c_sats cfg); reflexivity.
+Qed.
+
+Lemma put_outputs_tg_other : forall cfg txid outs vout rs U op,
+  fst op <> txid -> tgP op (put_outputs cfg txid vout outs rs U) = tgP op U.
+Proof.
+  intros cfg txid outs. induction outs as [|o r IH]; intros vout rs U op H; cbn [put_outputs]; auto.
+  rewrite IH by auto. rewrite tgP_set. rewrite pair_eqb_false; auto. intro. subst. apply H. reflexivity.
+Qed.
+
+Lemma EntInv_mono : forall E U l, EntInv E U [] -> EntInv E U l.
+Proof.
+  intros E U l H op u Hu Hne s off Hp. specialize (H op u Hu Hne s off Hp). unfold eranges in *.
+  destruct (is_null op); auto. rewrite app_nil_r in H. apply sat_at_mono. exact H.
+Qed.
+
+Lemma apply_locs_nullr : forall h rg locs b b' L,
+  NullR (s_utxo (b_st b)) L -> apply_locs h rg locs b = Ok b' -> NullR (s_utxo (b_st b')) L /\ b_lost b' = b_lost b.
+Proof.
+  intros h rg locs. induction locs as [|[[[op off] f] o] r IH]; intros b b' L HN H; cbn [apply_locs] in H.
+  - inv H. auto.
+  - dbind H. assert (Q : NullR (s_utxo (b_st a)) L /\ b_lost a = b_lost b).
+    { destruct (update_utxo_shape _ _ _ _ _ _ _ E) as (op2 & s2 & off2 & U & _). unfold NullR. rewrite U, entry_at_push_ranges.
+      split; auto. destruct (f_origin f) eqn:Ho.
+      - destruct (update_new_shape _ _ _ _ _ _ _ _ _ _ _ _ _ _ Ho E) as (e0 & [_ _ _ _ _ _ _ _ _ _ _ (_ & _ & Q & _)]). exact Q.
+      - destruct (update_old_shape _ _ _ _ _ _ _ _ Ho E) as (_ & _ & _ & _ & _ & _ & (_ & _ & Q & _) & _). exact Q. }
+    destruct Q as [Q1 Q2]. destruct (IH _ _ _ Q1 H) as [A B]. split; auto. congruence.
 Qed.
